@@ -128,6 +128,32 @@ def run_fault_sweep(args, stdin, timeout=20):
     return {"rc": 3, "stdout": "", "stderr": "", "sweep": "every offset 0..%d, persistent and transient: failed with an error, output a prefix" % len(data)}
 
 
+def run_write_fault_sweep(args, stdin, timeout=20):
+    """C16: for EVERY byte offset k of the fault-free output, a write that fails there must make the run fail (an Err, no panic, never
+    success), and what reached the output before is exactly the first k bytes of the fault-free output"""
+    b = build_fault()
+    if b is None:
+        return {"error": "fault harness build failed: " + _built.get("fault_err", "")}
+    data = stdin.encode("utf-8", "surrogateescape") if isinstance(stdin, str) else bytes(stdin)
+    def one(spec):
+        try:
+            p = subprocess.run([b, spec, "0"] + list(args), input=data, capture_output=True, timeout=timeout)
+        except subprocess.TimeoutExpired:
+            return {"timeout": True, "rc": None, "stdout": b"", "stderr": b""}
+        return {"rc": p.returncode, "stdout": p.stdout, "stderr": p.stderr}
+    clean = one(str(len(data) + 10))
+    if clean.get("rc") != 0:
+        return {"error": "the fault-free run of the sweep input does not succeed (rc %s)" % clean.get("rc")}
+    total = len(clean["stdout"])
+    for k in range(total):
+        r = one("w%d" % k)
+        ok = r.get("rc") == 3 and r["stdout"] == clean["stdout"][:k]
+        if not ok:
+            return {"write_fault_at": k, "rc": r.get("rc"), "timeout": r.get("timeout", False), "stdout": r["stdout"].decode("utf-8", "replace"),
+                    "stderr": r["stderr"].decode("utf-8", "replace")[-600:], "fault_free_stdout": clean["stdout"].decode("utf-8", "replace"), "sweep_failed": True}
+    return {"rc": 3, "stdout": "", "stderr": "", "sweep": "a failing write at every offset 0..%d of the output: failed with an error, exactly the bytes before it were written" % total}
+
+
 def run_endless(args, line, via_file, timeout=10):
     """An UNBOUNDED input: `line` repeated for ever, on stdin or through a named pipe given as the file argument {FIFO}.
     The run must end by itself (C14); a run still going after `timeout` seconds is killed and reported as a timeout."""
@@ -237,6 +263,11 @@ def run_probe(probe):
             shutil.rmtree(tmp, ignore_errors=True)
     elif probe.get("fault_sweep"):
         obs = run_fault_sweep(probe.get("args", []), bytes.fromhex(probe["stdin_hex"]) if "stdin_hex" in probe else probe.get("stdin", ""))
+        if "error" in obs:
+            return None, obs
+        return (not obs.get("sweep_failed")), obs
+    elif probe.get("write_fault_sweep"):
+        obs = run_write_fault_sweep(probe.get("args", []), bytes.fromhex(probe["stdin_hex"]) if "stdin_hex" in probe else probe.get("stdin", ""))
         if "error" in obs:
             return None, obs
         return (not obs.get("sweep_failed")), obs
